@@ -26,6 +26,10 @@ def cells(tier):
     out.append(cell("c2 r1 put|put join cancel0", consumers=2, rounds=1, actors=[[P], [P], [J], [["cancel", 0]]]))
     out.append(cell("c2 r2 put,put,put join cancel1", consumers=2, rounds=2, actors=[[P, P, P], [J], [["cancel", 1]]]))
     out.append(cell("c1 r2 put join put", consumers=1, rounds=2, actors=[[P], [J], [P]]))
+    A = ["aput"]
+    out.append(cell("bounded1 c1 r2 aput,aput join", consumers=1, rounds=2, maxsize=1, actors=[[A, A], [J]]))
+    out.append(cell("bounded1 c2 r1 aput|aput|aput join cancel0", consumers=2, rounds=1, maxsize=1, actors=[[A], [A], [A], [J], [["cancel", 0]]]))
+    out.append(cell("bounded1 c1 r3 aput,aput,aput cancel_prod1 join", consumers=1, rounds=3, maxsize=1, actors=[[A, A, A], [["cancel_prod", 1]], [J]]))
     if not q:
         out.append(cell("T c2 r2 put,put|put join cancel0 cancel1", consumers=2, rounds=2,
                         actors=[[P, P], [P], [J], [["cancel", 0]], [["cancel", 1]]]))
